@@ -307,6 +307,9 @@ func runReuse(kp hx.KeyPair, s rSeq, rng *mrand.Rand, res *hx.Result) {
 	}
 	ctx := big.NewInt(1)
 	var out []*produced
+	var lastCB *gabi.CredentialBuilder
+	var lastSecret *gobig.Int
+	nBuilders := 0
 	b, _ := json.Marshal(s)
 	res.Eval(hx.Digest(b))
 	det := hx.M{"sequence": s.Ops}
@@ -397,22 +400,35 @@ func runReuse(kp hx.KeyPair, s rSeq, rng *mrand.Rand, res *hx.Result) {
 				p1 := fromD("list1", op.Cred, d1, d1.CreateProof(ch).(*gabi.ProofD), rz["secretkey"].Go())
 				p2 := fromD("list2", 3-op.Cred, d2, d2.CreateProof(ch).(*gabi.ProofD), nil)
 				out = append(out, p1, p2)
-			case "issue": // issuance commitment with one random-blind attribute
-				cb, err := gabi.NewCredentialBuilder(kp.PK, ctx, randBits(rng, 250), randBits(rng, 80), nil, []int{1})
-				if err != nil {
-					perr = err
-					return
+			case "issue", "reissue":
+				// issuance commitment with one random-blind attribute; "reissue": the latest builder commits again for another nonce.
+				// The randomisers of v' and of the user's shares live as long as the builder (by design, observation O1) and are
+				// compared only between DIFFERENT builders; the secret-key randomiser is drawn per call and must be fresh: the
+				// extractor runs over the commitments of one builder
+				if op.Op == "issue" || lastCB == nil {
+					secret := randBits(rng, 250)
+					cb, err := gabi.NewCredentialBuilder(kp.PK, ctx, secret, randBits(rng, 80), nil, []int{1})
+					if err != nil {
+						perr = err
+						return
+					}
+					lastCB, lastSecret, nBuilders = cb, secret.Go(), nBuilders+1
 				}
-				icm, err := cb.CommitToSecretAndProve(randBits(rng, 80))
+				icm, err := lastCB.CommitToSecretAndProve(randBits(rng, 80))
 				if err != nil {
 					perr = err
 					return
 				}
 				pu, _ := icm.Proofs.GetFirstProofU()
-				vC, skR, mC := cb.VerifRandomizers()
-				p := &produced{what: "issue", cred: 0, c: pu.C.Go(), resp: map[string]*gobig.Int{}, secret: map[string]*gobig.Int{}, ids: map[string]*gobig.Int{"vprime": vC.Go(), "sk": skR.Go()}, elements: map[string]*gobig.Int{"U": pu.U.Go()}}
-				for i, x := range mC {
-					p.ids[fmt.Sprintf("m%d", i)] = x.Go()
+				vC, skR, mC := lastCB.VerifRandomizers()
+				p := &produced{what: op.Op, cred: 100 + nBuilders, c: pu.C.Go(), resp: map[string]*gobig.Int{"sk": pu.SResponse.Go()}, secret: map[string]*gobig.Int{"sk": lastSecret},
+					ids: map[string]*gobig.Int{"sk": skR.Go()}, elements: map[string]*gobig.Int{}}
+				if op.Op == "issue" {
+					p.ids["vprime"] = vC.Go()
+					p.elements["U"] = pu.U.Go()
+					for i, x := range mC {
+						p.ids[fmt.Sprintf("m%d", i)] = x.Go()
+					}
 				}
 				out = append(out, p)
 			}
